@@ -171,6 +171,11 @@ def jobs(tier):
                         for mode in (0, 1, 2, 3):
                             if mode >= 2 and caller < 0 and (fl or extra or wfail or down):
                                 continue
+                            if mode >= 2 and extra:
+                                continue    # FORCE / FAIL_DIRECT are unicast flags (C05); C10 quantifies over self-skip, self-direct, sync, sync-sleep, one-by-one only.
+                                            # [thorough run: with FAIL_DIRECT the one-by-one chain calls the next thread's callback directly on the previous thread, as the flag says]
+                            if mode == 1 and caller >= 0 and not (fl & 3):
+                                continue    # a pool thread that broadcasts synchronously to itself without SELF_SKIP / SELF_DIRECT waits for its own callback: API misuse, the harness path is (correctly) blocked -> vacuous
                             if wfail >= 4 and (mode < 2 or extra or down):
                                 continue    # 3rd write = the completion message: only exists in the cbsend modes
                             for sn in ((0, 1) if caller >= 0 and not (extra or down) else (None,)):
@@ -182,6 +187,7 @@ def jobs(tier):
             for fl in ((0,) if caller < 0 else (1, 2)):
                 for wfail in (0, 1, 2, 4, 5, 7):
                     add(mode, 3, caller, fl, wfail=wfail)
-                add(mode, 3, caller, fl | 8, down=2)
+                if mode < 2:
+                    add(mode, 3, caller, fl | 8, down=2)     # FORCE only with the plain broadcast forms (see above)
                 add(mode, 3, caller, fl, down=5 if caller != 0 and caller != 2 else 2)
     return out
